@@ -102,6 +102,7 @@ class Shard:
         self.violations = []
         self.known = {}
         self.samples = []
+        self.errors = []
         self.t0 = time.time()
         self.deadline = self.t0 + spec.get("time_limit", 1e9)
 
@@ -148,8 +149,21 @@ class Shard:
             }
         )
 
+    def run_case(self, fn, *a, **kw):
+        """Run one case of oracle code; an exception escaping from the oracle
+        itself is recorded (the run becomes inconclusive unless a violation is
+        found elsewhere) instead of killing the shard."""
+        try:
+            return fn(*a, **kw)
+        except Exception:
+            self.counters["oracle_errors"] += 1
+            if len(self.errors) < 3:
+                self.errors.append(traceback.format_exc()[-1800:])
+            return None
+
     def result(self):
         return {
+            "errors": self.errors,
             "evals": self.evals,
             "hashes": sorted(self.hashes),
             "counters": dict(self.counters),
